@@ -1,3 +1,4 @@
+import Varint.Bridge.RLE
 import Varint.Bridge.Sizes
 import Varint.Lemmas.BP128
 import Varint.Lemmas.Dict
@@ -50,6 +51,18 @@ theorem rle_roundtrip (xs : List Nat) (hx : U64s xs) (hn : xs.length < 2 ^ 64) (
     RLE.dec (RLE.enc xs ++ rest) xs.length = some xs :=
   RLE.dec_enc xs hx hn rest
 
+
+/-- **on the machine translation of `varintRLEEncode`**: the bytes the C stores (in order, each once) are an encoding
+    that the decoder given the original count turns back into the array, whatever follows them in memory -/
+theorem c_rle_encode_roundtrip (xs : List Nat) (hx : U64s xs) (hn : xs.length < 2 ^ 60) (given : Bool) (fuel : Nat)
+    (hf : xs.length + 2 ≤ fuel) (rest : List Nat) :
+    ∃ n m1 m2 m3 m4 stores,
+      Varint.Gen.C.rleEncode fuel (Varint.Bridge.Tagged.bufOf xs) xs.length given = some (n, m1, m2, m3, m4, stores) ∧
+      stores.map Prod.fst = List.range' 0 n ∧
+      RLE.dec (stores.map Prod.snd ++ rest) xs.length = some xs := by
+  refine ⟨_, _, _, _, _, _, Varint.Bridge.RLE.rleEncode_eq xs hx hn given fuel hf, ?_, ?_⟩
+  · rw [Varint.Bridge.storesFrom_fst]
+  · rw [Varint.Bridge.storesFrom_snd]; exact RLE.dec_enc xs hx (by omega) rest
 
 /-! ## group varint (1–64 fields) -/
 
